@@ -100,10 +100,10 @@ func init() {
 		"sort.Ints":                       note("sort.Ints", ext۰sort۰Ints),
 		"(*sync.Mutex).Lock":              ext۰Mutex۰Lock,
 		"(*sync.Mutex).Unlock":            ext۰Mutex۰Unlock,
-		"(*sync.RWMutex).Lock":            ext۰Mutex۰Lock,
-		"(*sync.RWMutex).Unlock":          ext۰Mutex۰Unlock,
-		"(*sync.RWMutex).RLock":           ext۰Mutex۰Lock,
-		"(*sync.RWMutex).RUnlock":         ext۰Mutex۰Unlock,
+		"(*sync.RWMutex).Lock":            ext۰RWMutex۰Lock,
+		"(*sync.RWMutex).Unlock":          ext۰RWMutex۰Unlock,
+		"(*sync.RWMutex).RLock":           ext۰RWMutex۰RLock,
+		"(*sync.RWMutex).RUnlock":         ext۰RWMutex۰RUnlock,
 		"(*sync.WaitGroup).Add":           ext۰WaitGroup۰Add,
 		"(*sync.WaitGroup).Done":          ext۰WaitGroup۰Done,
 		"(*sync.WaitGroup).Wait":          ext۰WaitGroup۰Wait,
